@@ -460,6 +460,11 @@ class Interp:
         m = self.models.method(self, v, name)
         if m is not None:
             return m
+        if name == '__class__':
+            try:
+                return self.models.py_type(self, v)
+            except Unsupported:
+                pass
         if hasattr(v, 'sym_getattr'):
             return v.sym_getattr(name, self)
         tn = type(v).__name__ if not isinstance(v, Sym) else v.kind
@@ -1090,6 +1095,17 @@ class Interp:
                 raise_('IndexError', 'string index out of range')
         if isinstance(obj, NDArr):
             return self.models.nd_getitem(self, obj, idx)
+        if type(obj).__name__ == 'SStr':
+            from . import sstr
+            if isinstance(idx, slice):
+                sl = self._slice(idx, 0)
+                if sl.step not in (None, 1):
+                    raise Unsupported('extended slice of structured string')
+                return sstr.slice_(obj, sl.start, sl.stop, self.ops)
+            n = obj.concrete_len()
+            if n is None:
+                raise Unsupported('index into symbolic-length string')
+            return sstr.char_at(obj, self.concretize_index(idx, n), self.ops)
         if hasattr(obj, 'sym_getitem'):
             return obj.sym_getitem(idx, self)
         if isinstance(obj, Obj):
